@@ -30,6 +30,12 @@ var c03Pins = []pin{
 	{"rfdToGo", "tpl", `"func " ⟨p1.Lfd.Fvar.Name⟩ !⟨writeTParamsIfAny($0, p1.Tparams)⟩ "(" ⟨lfdParamsToGo(p1.Lfd)⟩ ") " ⟨FTypeToGo(blockToType(ExprToType, p1.Lfd.Body))⟩ "{ " ⟨p0(p1.Lfd.Body)⟩ " }"`, "a top-level let of a function is a package func: name, type parameters, parameters in order, result"},
 	{"lfdParamsToGo", "tpl", `join(", "; slice.Map(paramsToGo, p0.Params))`, "parameters in declaration order"},
 	{"paramsToGo", "tpl", `⟨p0.Name⟩ " " ⟨FTypeToGo(p0.Ftype)⟩`, "parameter = name and mapped type"},
+	{"pany", "tpl", `⟨p0⟩ " any"`, "type parameter constraint any"},
+	{"toStringTParamsIfAny", "tpl", `?(slice.IsEmpty(p0)){""}{"[" join(", "; p0) "]"}`, "type arguments of the receiver"},
+	{"csToConformMethod", "tpl", `"func (" ⟨unionCSName(p0, p3.Name)⟩ ⟨toStringTParamsIfAny(p1)⟩ ") " ⟨p2⟩`, "marker method on the case struct"},
+	{"udCSConformMethods", "tpl", `join(""; slice.Map(csToConformMethod(p0.Name, p0.Tparams, (frt.SInterP("%s_Union()", p0.Name) + "{}\n"), _), udCases(p0)))`, "every case struct gets exactly the marker method U_Union(), in declaration order"},
+	{"csToStringerMethod", "tpl", `"func (v " ⟨unionCSName(p0, p2.Name)⟩ ⟨toStringTParamsIfAny(p1)⟩ ") String() string " "{ return " ?((p2.Ftype eq var:New_FType_FUnit)){"\"" "(" ⟨p2.Name⟩ ")" "\""}{"frt.Sprintf1(\"" "(" ⟨p2.Name⟩ ": %v)" "\", v.Value)"} " } "`, "every case struct gets a String method; no other method (in particular no Equal, which go-cmp would use) is emitted"},
+	{"udCSStringerMethods", "tpl", `join(""; slice.Map(csToStringerMethod(p0.Name, p0.Tparams, _), udCases(p0)))`, "Stringers in declaration order"},
 	// (b) call emission
 	{"fcToGo", "tpl", `!⟨$0 := slice.Length(p2.Args)⟩ !⟨$1 := slice.Length(fargs(fcToFuncType(p2)))⟩ ?(($0 > $1)){!⟨panic("Too many argument")⟩} ⇒?(($0 < $1)){⟨fcPartialApplyGo(p0, p1, p2)⟩}{⟨fcFullApplyGo(p0, p1, p2)⟩}`, "full application when all parameters are supplied, closure otherwise"},
 	{"fcFullApplyGo", "tpl", `⟨varRefToGo(p0, p2.TargetFunc)⟩ "(" ?(not(fcUnitArgOnly(p2))){join(", "; slice.Map(p1, p2.Args))} ")"`, "declared name (with explicit type arguments), all arguments in source order; a lone unit argument gives no argument list"},
